@@ -11,6 +11,7 @@
 import DropletsVerif.Lemmas.MergeInv
 import DropletsVerif.Lemmas.LabelInv
 import DropletsVerif.Lemmas.GridGeom
+import DropletsVerif.Model.Cyl
 import DropletsVerif.Props.C10
 
 namespace DV.C02
@@ -371,5 +372,84 @@ cell (1,7) [flat 15] are face neighbours across the periodic boundary, (1,7) and
 example : Across [5, 8] [false, true] 1 8 15 ∧ StepUp [5, 8] 0 15 23 := by
   refine ⟨⟨by decide, by decide, by decide, by decide, by decide, by decide⟩,
     ⟨by decide, by decide, by decide, by decide, by decide⟩⟩
+
+end DV.C02
+
+/-! ### cylindrical grids (Model/Cyl.lean: the candidates before the overlap filter) -/
+
+namespace DV.C02
+open DV.Cyl
+
+theorem foldl_add_rat (xs : List ℚ) (a : ℚ) : xs.foldl (· + ·) a = a + xs.sum := by
+  induction xs generalizing a with
+  | nil => simp
+  | cons x xs ih => simp only [List.foldl_cons, List.sum_cons, ih]; ring
+
+/-- the z position of a cluster found in an image with `nzp ≥ 1` columns lies strictly inside the image -/
+theorem zpos_bounds (nzp : ℕ) (hn : 0 < nzp) (cl : Cluster) : 0 < cl.zpos nzp ∧ cl.zpos nzp < nzp := by
+  unfold Cluster.zpos
+  rw [foldl_add_rat]
+  simp only [zero_add]
+  have hle : ∀ cells : List ℕ, 0 ≤ (cells.map fun c => (zIdx nzp c : ℚ)).sum ∧
+      (cells.map fun c => (zIdx nzp c : ℚ)).sum ≤ (cells.length : ℚ) * ((nzp : ℚ) - 1) := by
+    intro cells
+    induction cells with
+    | nil => simp
+    | cons c cs ih =>
+      simp only [List.map_cons, List.sum_cons, List.length_cons]
+      have hz : (zIdx nzp c : ℚ) ≤ (nzp : ℚ) - 1 := by
+        have : zIdx nzp c < nzp := Nat.mod_lt _ hn
+        have : (zIdx nzp c : ℚ) + 1 ≤ nzp := by exact_mod_cast this
+        linarith
+      have h0 : (0 : ℚ) ≤ zIdx nzp c := by positivity
+      push_cast
+      constructor <;> nlinarith [ih.1, ih.2]
+  obtain ⟨h1, h2⟩ := hle cl.cells
+  by_cases hl : cl.cells.length = 0
+  · rw [hl]; simp
+    have : (1 : ℚ) ≤ nzp := by exact_mod_cast hn
+    linarith
+  · have hpos : (0 : ℚ) < cl.cells.length := by exact_mod_cast Nat.pos_of_ne_zero hl
+    have hq : (cl.cells.map fun c => (zIdx nzp c : ℚ)).sum / (cl.cells.length : ℚ) ≤ (nzp : ℚ) - 1 := by
+      rw [div_le_iff₀ hpos]; linarith
+    have hq0 : 0 ≤ (cl.cells.map fun c => (zIdx nzp c : ℚ)).sum / (cl.cells.length : ℚ) := div_nonneg h1 hpos.le
+    constructor <;> linarith
+
+/-- **Cylindrical grids: every candidate lies on the axis inside the box `[z_min, z_max)`** (cell units
+`0 ≤ z < nz`), periodic or not, also after the fall-back for a spanning on-axis cluster. -/
+theorem cyl_candidates_in_box (nr nz : ℕ) (hn : 0 < nz) (periodic : Bool) (mask : ℕ → Bool) (cs : List (ℚ × ℕ))
+    (h : candidates nr nz periodic mask = some cs) : ∀ p ∈ cs, 0 ≤ p.1 ∧ p.1 < nz := by
+  have hplain : ∀ cs', single nr nz nz mask = some cs' → ∀ p ∈ cs', 0 ≤ p.1 ∧ p.1 < nz := by
+    intro cs' hs p hp
+    unfold single at hs
+    simp only at hs
+    split at hs
+    · exact absurd hs (by simp)
+    · simp only [Option.some.injEq] at hs
+      rw [← hs] at hp
+      obtain ⟨cl, _, rfl⟩ := List.mem_map.mp hp
+      have := zpos_bounds nz hn cl
+      exact ⟨this.1.le, this.2⟩
+  unfold candidates at h
+  simp only at h
+  by_cases hp : periodic = true
+  · simp only [hp, if_true] at h
+    split at h
+    · exact hplain cs h
+    · rename_i cs0 _
+      simp only [Option.some.injEq] at h
+      intro p hpm
+      rw [← h] at hpm
+      obtain ⟨q, hq, rfl⟩ := List.mem_map.mp hpm
+      obtain ⟨_, hkeep⟩ := List.mem_filter.mp hq
+      simp only [Bool.and_eq_true, decide_eq_true_eq] at hkeep
+      by_cases he : q.1 = (nz : ℚ)
+      · simp [he]; exact_mod_cast hn
+      · have hne : (q.1 == (nz : ℚ)) = false := by simpa using he
+        simp only [hne]
+        exact ⟨hkeep.1, lt_of_le_of_ne hkeep.2 he⟩
+  · have hp' : periodic = false := by simpa using hp
+    simp only [hp', Bool.false_eq_true, if_false] at h
+    exact hplain cs h
 
 end DV.C02
